@@ -279,7 +279,16 @@ fn seq_case() -> impl Strategy<Value = SeqCase> {
 
 fn env_case(full: bool) -> impl Strategy<Value = EnvCase> {
     let wl = prop_oneof![2 => 16u16..32, 3 => 32u16..=255, 2 => 256u16..=1024, 1 => prop::sample::select(vec![16u16, 31, 32, 33, 255, 256, 257, 1023, 1024])];
-    (bytes(32usize..=64), wl).prop_map(move |(plain, wrapped_len)| EnvCase { plain, wrapped_len, full })
+    // the seed is opaque bytes: binary, or text such as the configuration's 64 hex characters, base64, digits
+    let plain = prop_oneof![
+        6 => bytes(32usize..=64),
+        1 => "[0-9a-f]{64}".prop_map(|s| Hex(s.into_bytes())),
+        1 => "[0-9A-F]{64}".prop_map(|s| Hex(s.into_bytes())),
+        1 => "[0-9]{32,64}".prop_map(|s| Hex(s.into_bytes())),
+        1 => "[A-Za-z0-9+/]{43}=".prop_map(|s| Hex(s.into_bytes())),
+        1 => "[ -~]{32,64}".prop_map(|s| Hex(s.into_bytes())),
+    ];
+    (plain, wl).prop_map(move |(plain, wrapped_len)| EnvCase { plain, wrapped_len, full })
 }
 
 #[derive(Debug, Clone, Serialize, Deserialize)]
